@@ -87,6 +87,11 @@ inductive Handler
   | fail (code : Nat)
 deriving DecidableEq, Repr
 
+/-- the handler puts `grpc-encoding` values of its own into the response metadata -/
+def Handler.forges : Handler → Bool
+  | .reply _ _ md => !md.isEmpty
+  | .fail _ => false
+
 /-- A request as presented to `server::Grpc`: values of the two negotiation headers (in header
 order) and the body's frames. -/
 structure SrvReq where
